@@ -30,7 +30,9 @@ RULE = ("Hypothesis draws a non-negative integer count matrix with n in 1..8 (qu
         "75 %: assembled from 1..4 interleaved blocks (state->block labels drawn, so components are not contiguous "
         "in id order); each block is a directed cycle (drawn member order), a cycle plus extra internal edges, "
         "self-loops only, or isolated states; every edge that is meant to count has value threshold+0..3 plus a "
-        "per-block weight boost (0/5/40) so that weight and size are decoupled; one-way links (>= threshold) go only "
+        "per-block weight boost (0/5/40, or 'small_heavy': all boost on a block strictly smaller than the largest, or "
+        "'noise_heavy': one block is heaviest only through sub-threshold counts) so that weight, size and "
+        "thresholded weight are decoupled; one-way links (>= threshold) go only "
         "from lower to higher block index; sub-threshold 'noise' entries 1..threshold-1 (which carry weight but no "
         "connectivity, including back-links that would merge components) are sprinkled per block. 25 %: unstructured "
         "matrices with drawn density and value range straddling the threshold. Threshold in 1..4, renumber_states "
